@@ -502,7 +502,13 @@ func checkC11(c *Ctx) {
 			for _, b := range f.Blocks {
 				for _, in := range b.Instrs {
 					if al, ok := in.(*ssa.Alloc); ok && namedTypeName(al.Type()) == "TempoChange" {
-						coll = f
+						// the collecting function is the one that also decodes the tempo event (other functions may build
+						// TempoChange values too, e.g. a default record for queries before the first tempo event)
+						for _, call := range calls(f) {
+							if cal := call.Common().StaticCallee(); cal != nil && cal.Name() == "GetMetaTempo" {
+								coll = f
+							}
+						}
 					}
 				}
 			}
@@ -762,9 +768,10 @@ func iteratorSimulationSel(c *Ctx, rule string, do, timeAt *ssa.Function, sel []
 	smfT := p.namedType("smf", "SMF")
 	evT := p.namedType("smf", "Event")
 	trackT := p.namedType("smf", "Track")
-	trT := p.namedType("smf", "TracksReader")
+	_ = p.namedType("smf", "TracksReader")
 	ex := NewExec(p)
 	ex.Unroll = 6
+	ex.MapModel = true // the selection set is a map the constructor fills
 	ex.CallHook = func(ex *Exec, st *State, fr *Frame, call ssa.CallInstruction, callee *ssa.Function, args []Val) ([]callRes, bool) {
 		if callee != timeAt || len(args) < 2 {
 			return nil, false
@@ -799,21 +806,6 @@ func iteratorSimulationSel(c *Ctx, rule string, do, timeAt *ssa.Function, sel []
 	two := mkConst(2, 64, true)
 	sp := ex.newZeroObject(st, smfT)
 	ex.setField(st, sp, "Tracks", &SliceV{Obj: tsid, Off: mkConst(0, 64, true), Len: two, Cap: two})
-	rp := ex.newZeroObject(st, trT)
-	// the reader's reference to the file: its only field of type *SMF
-	set := false
-	if rs, ok := st.heap[rp.Obj].(*StructV); ok {
-		for i := 0; i < rs.T.NumFields(); i++ {
-			if pt, ok := rs.T.Field(i).Type().(*types.Pointer); ok && types.Identical(pt.Elem(), smfT) {
-				rs.Fields[i] = sp
-				set = true
-			}
-		}
-	}
-	if !set {
-		c.Unk(rule, "TracksReader: reference to the file", "-", "no field of type *SMF")
-		return
-	}
 	selected := map[int]bool{0: true, 1: true}
 	label := "per-event time = TimeAt(running absolute tick)"
 	if rule != "C11.4" {
@@ -821,28 +813,52 @@ func iteratorSimulationSel(c *Ctx, rule string, do, timeAt *ssa.Function, sel []
 	}
 	if sel != nil {
 		selected = map[int]bool{}
-		okSel := false
-		if rs, ok := st.heap[rp.Obj].(*StructV); ok {
-			for i := 0; i < rs.T.NumFields(); i++ {
-				if mt, ok := rs.T.Field(i).Type().Underlying().(*types.Map); ok {
-					if b, ok := mt.Elem().Underlying().(*types.Basic); ok && b.Kind() == types.Bool {
-						var vals []Val
-						for _, k := range sel {
-							selected[int(k)] = true
-							vals = append(vals, &BoolV{Known: true, Val: true})
-						}
-						rs.Fields[i] = &MapV{Const: true, Keys: sel, Vals: vals, ElemT: mt.Elem()}
-						okSel = true
-					}
-				}
-			}
-		}
-		if !okSel {
-			c.Unk(rule, "TracksReader: track selection", "-", "no field of type map[int]bool")
-			return
+		for _, k := range sel {
+			selected[int(k)] = true
 		}
 		label = fmt.Sprintf("track selection %v: exactly the events of the selected tracks, once each, in file order", sel)
 	}
+	// The reader is made by the package's own constructor ReadTracksFrom(source, selection...), with the file parser
+	// (ReadFrom) replaced by "returns the prepared two-track file": whatever the constructor does with the selection
+	// (copy, normalise, validate against the file) is part of what is judged.
+	var rp *PtrV
+	ctor, rf := p.Func("smf", "ReadTracksFrom"), p.Func("smf", "ReadFrom")
+	if ctor == nil || rf == nil || len(ctor.Params) != 2 {
+		c.Unk(rule, "iterator simulation: constructor ReadTracksFrom / ReadFrom", "-", "not found")
+		return
+	}
+	ex.setField(st, sp, "TimeFormat", &IfaceV{Dyn: p.namedType("smf", "MetricTicks"), V: mkConst(960, 16, false)})
+	prevHook := ex.CallHook
+	parsed := 0
+	ex.CallHook = func(ex *Exec, st *State, fr *Frame, call ssa.CallInstruction, callee *ssa.Function, args []Val) ([]callRes, bool) {
+		if callee == rf {
+			parsed++
+			return []callRes{{st: st, ret: &TupleV{Vs: []Val{sp, nilErr()}}}}, true
+		}
+		return prevHook(ex, st, fr, call, callee, args)
+	}
+	var selArg Val = &SliceV{Nil: true, Off: mkConst(0, 64, true), Len: mkConst(0, 64, true), Cap: mkConst(0, 64, true)}
+	if len(sel) > 0 {
+		var els []Val
+		for _, k := range sel {
+			els = append(els, mkConst(k, 64, true))
+		}
+		aid := ex.newObj(st, &ArrayV{Elem: types.Typ[types.Int], Segs: []Seg{{Elems: els}}}, nil)
+		n := mkConst(int64(len(sel)), 64, true)
+		selArg = &SliceV{Obj: aid, Off: mkConst(0, 64, true), Len: n, Cap: n}
+	}
+	co := ex.Call(st, ctor, []Val{&IfaceV{Unk: true, NonNil: true}, selArg}, nil)
+	if len(co) != 1 || co[0].Panic || parsed == 0 {
+		c.Unk(rule, "iterator simulation: "+label, p.Pos(ctor.Pos()), fmt.Sprintf("the constructor ReadTracksFrom did not yield one reader on the prepared file (outcomes=%d, file parser reached %d times)", len(co), parsed))
+		return
+	}
+	rp, _ = co[0].Ret[0].(*PtrV)
+	if rp == nil || rp.Nil || rp.Unk {
+		c.Unk(rule, "iterator simulation: "+label, p.Pos(ctor.Pos()), "the constructor does not return a tracked reader")
+		return
+	}
+	st = co[0].St
+	st.Events = nil
 	outs := ex.Call(st, do, []Val{rp, &FuncV{Ext: "cb"}}, nil)
 	if ex.Budget || len(outs) == 0 {
 		c.Unk(rule, "iterator simulation", p.Pos(do.Pos()), "abstract interpretation did not complete")
